@@ -30,7 +30,9 @@ type ReverseDomainScanner struct {
 }
 
 func NewReverseDomainScanner(s string) *ReverseDomainScanner {
-	s = TrimDot(s)
+	if n := len(s); n > 0 && s[n-1] == '.' && !isEscaped(s, n-1) {
+		s = s[:n-1]
+	}
 	return &ReverseDomainScanner{
 		s: s,
 		p: len(s),
@@ -43,8 +45,30 @@ func (s *ReverseDomainScanner) Scan() bool {
 		return false
 	}
 	s.t = s.p
-	s.p = strings.LastIndexByte(s.s[:s.p], '.')
+	s.p = lastLabelSeparator(s.s[:s.p])
 	return true
+}
+
+// isEscaped reports whether the byte s[i] is escaped by a backslash, that is,
+// preceded by an odd number of consecutive backslashes (dns presentation
+// format, e.g. `a\.b` is the single label "a.b" while `a\\.b` is "a\" + "b").
+func isEscaped(s string, i int) bool {
+	n := 0
+	for i--; i >= 0 && s[i] == '\\'; i-- {
+		n++
+	}
+	return n%2 == 1
+}
+
+// lastLabelSeparator returns the index of the last '.' in s that separates
+// two labels (is not escaped), or -1.
+func lastLabelSeparator(s string) int {
+	for i := strings.LastIndexByte(s, '.'); i >= 0; i = strings.LastIndexByte(s[:i], '.') {
+		if !isEscaped(s, i) {
+			return i
+		}
+	}
+	return -1
 }
 
 func (s *ReverseDomainScanner) NextLabelOffset() int {
